@@ -720,4 +720,52 @@ example : MathC.aws_add_size_checked_varargs 0 [12345] 7 = .ok 0 ∧
     MathC.aws_add_size_checked_varargs 2 [2^63, 2^63, 0] 7 = .err 5 ∧
     MathC.aws_add_size_checked_varargs 5 [1, 2, 3, 4, 5, 2^64 - 1] 7 = .ok 15 := by decide
 
+/-! ## floating-point min / max (math.inl)
+
+A `float`/`double` is its IEEE-754 bit pattern; `CSem.fcmp` is the ordered comparison on patterns and `CSem.fKey`
+the order-embedding key of a non-NaN pattern (so `fKey r ≤ fKey a` says "the value of r is ≤ the value of a";
+`-0` and `+0` have the same key).  The result is always one of the operands; for two numbers it is a smallest /
+largest one; if either operand is a NaN it is the second operand (the comparison is false). -/
+
+def FMinSpec (e m a b r : Nat) : Prop :=
+  (r = a ∨ r = b) ∧
+  (fIsNaN e m a = false → fIsNaN e m b = false → fKey e m r ≤ fKey e m a ∧ fKey e m r ≤ fKey e m b) ∧
+  (fIsNaN e m a = true ∨ fIsNaN e m b = true → r = b)
+
+def FMaxSpec (e m a b r : Nat) : Prop :=
+  (r = a ∨ r = b) ∧
+  (fIsNaN e m a = false → fIsNaN e m b = false → fKey e m a ≤ fKey e m r ∧ fKey e m b ≤ fKey e m r) ∧
+  (fIsNaN e m a = true ∨ fIsNaN e m b = true → r = b)
+
+theorem fmin_of_lt (e m a b : Nat) : FMinSpec e m a b (if fcmp e m .lt a b then a else b) := by
+  unfold FMinSpec fcmp
+  cases ha : fIsNaN e m a <;> cases hb : fIsNaN e m b <;> simp
+  by_cases h : fKey e m a < fKey e m b
+  · simp [h]; omega
+  · simp [h]; omega
+
+theorem fmax_of_gt (e m a b : Nat) : FMaxSpec e m a b (if fcmp e m .gt a b then a else b) := by
+  unfold FMaxSpec fcmp
+  cases ha : fIsNaN e m a <;> cases hb : fIsNaN e m b <;> simp
+  by_cases h : fKey e m b < fKey e m a
+  · simp [h]; omega
+  · simp [h]; omega
+
+theorem c16_min_max_float (a b : Nat) :
+    FMinSpec 8 23 a b (MathInl.aws_min_float a b) ∧ FMaxSpec 8 23 a b (MathInl.aws_max_float a b) := by
+  unfold MathInl.aws_min_float MathInl.aws_max_float
+  exact ⟨fmin_of_lt 8 23 a b, fmax_of_gt 8 23 a b⟩
+
+theorem c16_min_max_double (a b : Nat) :
+    FMinSpec 11 52 a b (MathInl.aws_min_double a b) ∧ FMaxSpec 11 52 a b (MathInl.aws_max_double a b) := by
+  unfold MathInl.aws_min_double MathInl.aws_max_double
+  exact ⟨fmin_of_lt 11 52 a b, fmax_of_gt 11 52 a b⟩
+
+/-- 0x3f800000 = 1.0f, 0xbf800000 = -1.0f, 0x80000000 = -0.0f, 0x7fc00000 = NaN, 0x7f800000 = +inf, 1 = least subnormal -/
+example : MathInl.aws_min_float 0x3f800000 0xbf800000 = 0xbf800000 ∧ MathInl.aws_max_float 0x3f800000 0xbf800000 = 0x3f800000 ∧
+    MathInl.aws_min_float 0 0x80000000 = 0x80000000 ∧ MathInl.aws_min_float 0x7fc00000 1 = 1 ∧
+    MathInl.aws_min_float 1 0x7fc00000 = 0x7fc00000 ∧ MathInl.aws_max_float 0x7f800000 0x7f7fffff = 0x7f800000 ∧
+    MathInl.aws_min_float 0x80000001 1 = 0x80000001 ∧
+    MathInl.aws_max_double 0x3ff0000000000001 0x3ff0000000000000 = 0x3ff0000000000001 := by decide
+
 end AwsVerif.Props.C16
